@@ -218,8 +218,139 @@ def run_case(job):
                 x0, y0, x1, y1 = min(p[0] for p in pts), min(p[1] for p in pts), max(p[0] for p in pts), max(p[1] for p in pts)
                 if x0 < b[0] - slack or y0 < b[1] - slack or x1 > b[2] + slack or y1 > b[3] + slack:
                     probs.append(f"{loc}: clip box {tuple(round(v, 1) for v in b)} cuts geometry {(round(x0), round(y0), round(x1), round(y1))} of {g}")
+        # round 7: the configuration file edited (another advance width) and the command run again in the same build directory:
+        # masters and variable font are rebuilt - the result is the font of a fresh directory
+        if not probs and variant in ("weight", "two-axes"):
+            new_width = upem + 200
+            vf2 = vf.replace(f"width = {upem}\n", f"width = {new_width}\n")
+            (d / "vf.toml").write_text(vf2)
+            rc2, out2 = build.run_cli(["--build_dir", d / "build_vf", d / "vf.toml"], cwd=d)
+            rc3, out3 = build.run_cli(["--build_dir", d / "build_fresh", d / "vf.toml"], cwd=d)
+            res["rerun"] = dict(width=new_width, exit_rerun=rc2, exit_fresh=rc3)
+            if rc2 != 0 or rc3 != 0:
+                probs.append(f"re-run after editing the configuration: exit {rc2}, fresh directory: exit {rc3}: " + (out2 if rc2 else out3)[-600:])
+            else:
+                a, b = load(d / "build_vf" / "VF.ttf"), load(d / "build_fresh" / "VF.ttf")
+                for cp, (g, pic, p1, adv) in glyph_pictures(a).items():
+                    g2, pic2, p2, adv2 = glyph_pictures(b)[cp]
+                    if adv != adv2:
+                        probs.append(f"after width = {new_width} and a second run in the same build directory U+{cp:X} has advance {adv}; a fresh directory gives {adv2}")
+                    pp = picture.compare_pictures(pic2, pic, eps=0.01, palette_check=False, use_slack=False)
+                    probs += [f"second run in the same build directory vs fresh directory, U+{cp:X}: {x}" for x in pp[:2]]
         res["problems"] = probs
         return res
+
+
+def geometry_at(path, user_loc):
+    """bounding box of what each colour glyph of a variable COLRv1 font paints at a user-space location: outlines from the
+    instancer (glyf/gvar), transform paints evaluated from COLR's own variation data (PaintVar* + VarIndexMap + store).
+    -> (font, {glyph: (xMin, yMin, xMax, yMax)}, whether some variable transform paint was met)"""
+    from fontTools.misc.transform import Transform
+    from fontTools.pens.boundsPen import BoundsPen
+    from fontTools.pens.transformPen import TransformPen
+    from fontTools.ttLib.tables import otTables as ot
+    from fontTools.varLib import instancer
+    from fontTools.varLib.models import normalizeLocation
+    from fontTools.varLib.varStore import VarStoreInstancer
+
+    vfont = load(path)
+    colr = vfont["COLR"].table
+    axes = {a.axisTag: (a.minValue, a.defaultValue, a.maxValue) for a in vfont["fvar"].axes}
+    vsi = VarStoreInstancer(colr.VarStore, vfont["fvar"].axes, normalizeLocation(user_loc, axes)) if colr.VarStore else None
+
+    def delta(base, i):
+        idx = base + i
+        return vsi[colr.VarIndexMap.mapping[idx] if colr.VarIndexMap is not None else idx]
+
+    gs = instancer.instantiateVariableFont(load(path), dict(user_loc)).getGlyphSet()
+    F = ot.PaintFormat
+    met = [False]
+
+    def walk(p, m, acc):
+        if p.Format == F.PaintColrLayers:
+            for l in colr.LayerList.Paint[p.FirstLayerIndex : p.FirstLayerIndex + p.NumLayers]:
+                walk(l, m, acc)
+        elif p.Format == F.PaintGlyph:
+            bp = BoundsPen(gs)
+            gs[p.Glyph].draw(TransformPen(bp, m))
+            if bp.bounds:
+                acc.append(bp.bounds)
+        elif p.Format in (F.PaintTransform, F.PaintVarTransform):
+            t = p.Transform
+            v = [t.xx, t.yx, t.xy, t.yy, t.dx, t.dy]
+            if p.Format == F.PaintVarTransform:
+                met[0] = True
+                v = [v[i] + delta(t.VarIndexBase, i) / 65536 for i in range(6)]
+            walk(p.Paint, m.transform(tuple(v)), acc)
+        elif p.Format in (F.PaintTranslate, F.PaintVarTranslate):
+            dx, dy = p.dx, p.dy
+            if p.Format == F.PaintVarTranslate:
+                met[0] = True
+                dx, dy = dx + delta(p.VarIndexBase, 0), dy + delta(p.VarIndexBase, 1)
+            walk(p.Paint, m.translate(dx, dy), acc)
+        elif p.Format in (F.PaintScale, F.PaintVarScale, F.PaintScaleUniform, F.PaintVarScaleUniform, F.PaintScaleAroundCenter, F.PaintVarScaleAroundCenter, F.PaintScaleUniformAroundCenter, F.PaintVarScaleUniformAroundCenter):
+            uni = p.Format in (F.PaintScaleUniform, F.PaintVarScaleUniform, F.PaintScaleUniformAroundCenter, F.PaintVarScaleUniformAroundCenter)
+            centred = p.Format in (F.PaintScaleAroundCenter, F.PaintVarScaleAroundCenter, F.PaintScaleUniformAroundCenter, F.PaintVarScaleUniformAroundCenter)
+            var = p.Format in (F.PaintVarScale, F.PaintVarScaleUniform, F.PaintVarScaleAroundCenter, F.PaintVarScaleUniformAroundCenter)
+            vals = ([p.scale] if uni else [p.scaleX, p.scaleY]) + ([p.centerX, p.centerY] if centred else [])
+            if var:
+                met[0] = True
+                ns = 1 if uni else 2
+                vals = [v_ + (delta(p.VarIndexBase, i) / 16384 if i < ns else delta(p.VarIndexBase, i)) for i, v_ in enumerate(vals)]
+            sx, sy = (vals[0], vals[0]) if uni else (vals[0], vals[1])
+            cx, cy = (vals[-2], vals[-1]) if centred else (0, 0)
+            walk(p.Paint, m.translate(cx, cy).scale(sx, sy).translate(-cx, -cy), acc)
+        elif p.Format == F.PaintComposite:
+            walk(p.SourcePaint, m, acc)
+        else:
+            raise ValueError(f"paint format {p.Format} not handled")
+
+    out = {}
+    for rec in colr.BaseGlyphList.BaseGlyphPaintRecord:
+        acc = []
+        walk(rec.Paint, Transform(), acc)
+        if acc:
+            out[rec.BaseGlyph] = (min(b[0] for b in acc), min(b[1] for b in acc), max(b[2] for b in acc), max(b[3] for b in acc))
+    return vfont, out, met[0]
+
+
+def run_reuse_clip(report):
+    """the clip-box clause with shape reuse ON (the default tolerance): a shape reused inside one glyph under a scale that
+    differs between the masters is placed by a variable transform paint applied to a variable outline, so its extent is
+    quadratic in the axis value, while the variable clip box moves linearly between the masters' boxes (F40)"""
+    H = '<svg xmlns="http://www.w3.org/2000/svg" viewBox="0 0 100 100">'
+    thin = H + '<path d="M10,10 L20,10 L20,20 L10,20 Z" fill="red"/><path d="M40,40 L60,40 L60,60 L40,60 Z" fill="blue"/></svg>'
+    bold = H + '<path d="M10,10 L30,10 L30,30 L10,30 Z" fill="red"/><path d="M40,40 L50,40 L50,50 L40,50 Z" fill="blue"/></svg>'
+    with scratch_dir("verif-c18rc-") as d:
+        for m, t in (("thin", thin), ("bold", bold)):
+            (d / m).mkdir()
+            (d / m / "emoji_u1f600.svg").write_text(t)
+        (d / "vf.toml").write_text('output_file = "VF.ttf"\ncolor_format = "glyf_colr_1"\n[axis.wght]\nname = "Weight"\ndefault = 300\n[master.thin]\nstyle_name = "Thin"\nsrcs = ["thin/*.svg"]\n'
+                                   '[master.thin.position]\nwght = 300\n[master.bold]\nstyle_name = "Bold"\nsrcs = ["bold/*.svg"]\n[master.bold.position]\nwght = 700\n')
+        rc, out = build.run_cli(["--build_dir", d / "build", d / "vf.toml"], cwd=d)
+        case = dict(kind="e2e-cli", what="two masters, default reuse tolerance: the blue square is the red one scaled by 2 in the thin master and by 0.5 in the bold one", sources=dict(thin=thin, bold=bold))
+        report.count(("reuse-clip",), True)
+        if rc != 0:
+            case["log"] = out[-1200:]
+            report_failure(report, "reuse_clip_build", case)
+            return
+        worst = None
+        for w in (300, 400, 500, 600, 700):
+            vfont, geo, variable_transform = geometry_at(d / "build" / "VF.ttf", {"wght": w})
+            for g, bb in geo.items():
+                cb = clip_box_at(vfont, g, {"wght": w})
+                if cb is None:
+                    continue
+                cut = max(cb[0] - bb[0], cb[1] - bb[1], bb[2] - cb[2], bb[3] - cb[3])
+                if cut > 2.0 and (worst is None or cut > worst[0]):
+                    worst = (cut, w, g, tuple(round(v, 1) for v in cb), tuple(round(v, 1) for v in bb), variable_transform)
+        report.hist("reuse_clip.outcome", "geometry leaves the clip box" if worst else "contained")
+        if worst:
+            cut, w, g, cb, bb, vt = worst
+            case.update(location=dict(wght=w), glyph=g, clip_box=cb, geometry=bb, outside_by=round(cut, 1))
+            # F40's class: an intermediate location, and the glyph is painted through a variable transform paint
+            known = vt and w not in (300, 700)
+            report_failure(report, "reuse_clip", case, "F40-variable-clipbox-linear-geometry-quadratic" if known else None)
 
 
 def run_designspace(report, n, rng):
@@ -247,8 +378,15 @@ def run_designspace(report, n, rng):
         for m in range(nm):
             pos = {t: rng.choice([0, -12, 100, 400, 87.5, 112.5, 900, 62.5, 125.5]) for t, _ in axes}
             masters.append(pos)
-        kind = ["plain", "plain", "default-zero-not-lowest", "unknown-tag"][i % 4]
+        kind = ["plain", "sparse-positions", "default-zero-not-lowest", "unknown-tag", "plain", "sparse-positions"][i % 6]
         defaults = {t: rng.choice([masters[0][t], masters[-1][t], 0, 400]) for t, _ in axes}
+        if kind == "sparse-positions":
+            # round 7: the default master first, at every axis' default; each later master names only the axis it moves on
+            # (the others are left out: it sits at their defaults) - what one master says must not leak into the next
+            if len(axes) < 2:
+                axes = rng.sample(TAGS, 2)
+            defaults = {t: rng.choice([0, 100, 400]) for t, _ in axes}
+            masters = [dict(defaults)] + [{axes[m % len(axes)][0]: defaults[axes[m % len(axes)][0]] + rng.choice([50, 300, 12.5])} for m in range(max(2, nm))]
         if kind == "default-zero-not-lowest":
             t0 = axes[0][0]
             masters[0][t0], masters[1][t0], defaults[t0] = 0, -12, 0
@@ -339,6 +477,7 @@ def main(argv):
             break
     report.sample({k: str(v)[:400] for k, v in results[0].items()})
     run_negative(report)
+    run_reuse_clip(report)
     if common.vo_ok("Corr/C18.v") and not report.violations:
         run_designspace(report, 16 if tier == "quick" else 160, random.Random(rng.getrandbits(48)))
     if not st["proof_ok"] and not report.violations:
